@@ -199,6 +199,12 @@ pub fn canaries(seed: u64, pool: &Pool) -> Vec<(String, u8, SettingsSpec)> {
         let s = if i % 3 == 0 { SettingsSpec::default() } else { one_field_settings(&mut rng) };
         v.push((t, entry, s));
     }
+    // the largest inputs too (many spans, many fragments per cell): whatever
+    // depends on the size of the work must be compared across processes as well
+    for f in pool.small_files() {
+        v.push((f.1.clone(), 0, SettingsSpec::default()));
+        v.push((f.1.clone(), 3, SettingsSpec::default()));
+    }
     v
 }
 
